@@ -48,7 +48,7 @@ func NewTernarySampler(prng sampling.PRNG, baseRing *Ring, X Ternary, montgomery
 // AtLevel returns an instance of the target TernarySampler to sample at the given level.
 // The returned sampler cannot be used concurrently to the original sampler.
 func (ts *TernarySampler) AtLevel(level int) Sampler {
-	return &TernarySampler{
+	view := &TernarySampler{
 		baseSampler:  ts.baseSampler.AtLevel(level),
 		matrixProba:  ts.matrixProba,
 		matrixValues: ts.matrixValues,
@@ -56,6 +56,14 @@ func (ts *TernarySampler) AtLevel(level int) Sampler {
 		hw:           ts.hw,
 		sample:       ts.sample,
 	}
+	// ts.sample is a method value bound to ts (hence to ts's level): rebind it to the view,
+	// otherwise the view samples at the parent's level and overruns lower-level polynomials.
+	if view.hw != 0 {
+		view.sample = view.sampleSparse
+	} else {
+		view.sample = view.sampleProba
+	}
+	return view
 }
 
 // Read samples a polynomial into pol.
